@@ -35,7 +35,8 @@ from .. import gen
 from ..harness import Result, Violation, clip, parallel, seed
 
 FUNC = "load_tree_from_fs"
-NAMES = ("B", "a", "_x", "\u00e4", "10", "9", "a.txt", "A", "a\u0308", "Z", "b", "a b", "a-b", "ab", "\u65e5\u672c", ".hidden", "\u00f1", "1", "a.TXT", "~t")  # NFC and NFD spelling of a-umlaut are different names
+NAMES = ("B", "a", "_x", "\u00e4", "10", "9", "a.txt", "A", "a\u0308", "Z", "b", "a b", "a-b", "ab", "\u65e5\u672c", ".hidden", "\u00f1", "1", "a.TXT", "~t",
+         "\U0001f600.txt", "\uffff", "\U0001d4d0 n")  # astral-plane and U+FFFF names: code-point order, no sentinel character is 'the highest'"  # NFC and NFD spelling of a-umlaut are different names
 MTIMES = (0.0, 1.0, 86400.0 * 365.25, 1234567890.0, 1234567890.5, 1700000000.123456, 2.0**31 + 0.25, 4102444800.0)
 ROOTS = ("root", "r\u00f6\u00f6t dir")
 
@@ -102,6 +103,8 @@ def _handmade():
     out.append([f("a"), f("A"), f("\u00e4"), f("a\u0308"), f("ab"), f("a b")])
     out.append([d("a"), d("A"), d("\u00e4"), d("a\u0308"), d("ab"), d("a-b")])
     out.append([d("a.d"), d("a"), d("a-d"), f("a.txt"), f("a.TXT"), f(".hidden")])
+    # names above / at U+FFFF (emoji, mathematical letters): files still come before every sub-directory
+    out.append([f("\U0001f600.txt"), d("a"), f("\uffff"), d("\U0001f600"), f("z"), d("\uffffd")])
     out.append([])  # empty root folder
     out.append([d("only")])  # a single empty folder
     return out
